@@ -51,6 +51,10 @@ Definition entry (sel : Z) (toks : list Z) : list Z :=
   | 3 => match run_dec dInput toks with
          | Some (_, _, ss) => tag 1 ++ eBool (valid_config ss)
          | None => bad_input end
+  (* syncShards' view: the nodes as listNodesFromCache returns them (sorted by name), then the calculation *)
+  | 4 => match run_dec dInput toks with
+         | Some (ns, m, ss) => eAssign (sync_assignments ns m ss)
+         | None => bad_input end
   (* laws evaluated on the implementation's own results: must answer [1] *)
   | 101 => match run_dec dResult toks with
            | Some r => eBool (law_disjoint r) | None => bad_input end
@@ -64,7 +68,7 @@ Definition entry (sel : Z) (toks : list Z) : list Z :=
            | Some (a, b) => eBool (law_deterministic a b) | None => bad_input end
   | 106 => match run_dec (dPair dInput dResult) toks with
            | Some ((ns, m, ss), r) => eBool (law_count ns m ss r) | None => bad_input end
-  (* two node-lister orders of the same cluster: same shard membership (lists sorted by the harness) *)
+  (* the same cluster listed by two differently filled node listers: identical assignments *)
   | 107 => match run_dec (dPair dResult dResult) toks with
            | Some (a, b) => eBool (law_deterministic a b) | None => bad_input end
   | 108 => match run_dec (dPair dInput dResult) toks with
